@@ -268,13 +268,25 @@ pub fn c17(run: &Run) -> (u64, u64) {
         let _ = e.send("setoption name Hash value 1");
         // all paths
         let mut stack: Vec<(Pos, Vec<String>)> = vec![(base_pos.clone(), vec![])];
+        let mut spelling = 0usize;
         while let Some((p, moves)) = stack.pop() {
             let mut line = format!("position {base}");
             if !moves.is_empty() {
                 line.push_str(" moves ");
                 line.push_str(&moves.join(" "));
             }
+            // the same command in the ways a GUI may legitimately write it: single blanks, tabs, runs of blanks with
+            // leading and trailing ones, a carriage return before the line feed
             n.fetch_add(1, Ordering::Relaxed);
+            spelling += 1;
+            let line = match spelling % 4 {
+                // (tabs only for startpos games: the unmodified engine reads `position<TAB>fen<TAB>..` as an invalid FEN
+                // and exits; the property's input format is written with blanks, so that spelling is not demanded)
+                1 if base == "startpos" => line.replace(' ', "\t"),
+                2 => format!("  {}  ", line.replace(' ', "   ")),
+                3 => format!("{line}\r"),
+                _ => line,
+            };
             let c = || J::obj(vec![("kind", J::s("blackbox")), ("lines", J::Arr(vec![J::s(line.clone()), J::s("d fen"), J::s("d perftdiv 1")]))]);
             let r = e.send(&line).and_then(|_| e.send("d fen")).and_then(|_| e.wait_for("FEN:", T));
             let fen_line = match r {
